@@ -57,6 +57,9 @@ def universes(tier):
         if i % 4 == 0:
             pre.append({"reaction": r})   # a fresh row in the same batch
     us.append(("pre-populated output columns", pre, {}, 5))
+    # batch sizes that do not divide the number of rows / exceed it
+    for bs in (2, 4, 9):
+        us.append(("balanced rows batch_size={}".format(bs), bal[:21], {"batch_size": bs}, 7))
     us += pf.ids_universes()
     return us
 
